@@ -1,6 +1,8 @@
 package sim
 
 import (
+	"fmt"
+	paramproposal "github.com/cosmos/cosmos-sdk/x/params/types/proposal"
 	"math/big"
 	"strconv"
 	"strings"
@@ -119,6 +121,16 @@ func (w *World) doGov(in Intent) {
 			return
 		}
 		w.St.Fault("gov_cold_storage_proposal")
+		w.Submit("gov_submit", proposer, in.Net, map[string]string{"op": in.Op}, msg)
+	case "param":
+		// governance changes the transfer timeout (a parameter that block processing reads every block)
+		pc := paramproposal.NewParameterChangeProposal("timeout", "change the outgoing transfer timeout", []paramproposal.ParamChange{
+			paramproposal.NewParamChange("mhub2", "OutgoingTxTimeout", fmt.Sprintf("%q", in.Amt))})
+		msg, err := govtypes.NewMsgSubmitProposal(pc, deposit, proposer.Addr)
+		if err != nil {
+			return
+		}
+		w.St.Fault("gov_param_change")
 		w.Submit("gov_submit", proposer, in.Net, map[string]string{"op": in.Op}, msg)
 	case "delist":
 		// governance removes one token from the list while transfers of it may be pending
